@@ -20,6 +20,13 @@ func (c *Conversation) Send(m ValidMessage, trace ...interface{}) ([]ValidMessag
 		return nil, nil
 	}
 
+	// Inside a data message the text ends at the first NUL byte; what follows
+	// is read as TLVs by the peer. A text that contains one can not be sent
+	// encrypted unchanged - and its tail must not be taken for protocol.
+	if bytes.IndexByte(message, 0) >= 0 && (c.msgState == encrypted || c.Policies.has(requireEncryption)) {
+		return c.withInjections(nil, newOtrError("cannot send a message that contains a NUL byte"))
+	}
+
 	switch c.msgState {
 	case plainText:
 		return c.withInjections(c.sendMessageOnPlaintext(message, trace...))
